@@ -54,6 +54,11 @@ extern int mpt_queue_recv(MPT_STRUCT(decode_queue) *qu)
 	ssize_t res;
 	
 	if (!(len = qu->data.len)) {
+		/* consume (empty) message, no data left for decoder to do so */
+		if (qu->_state.data.msg >= 0) {
+			qu->_state.data.len -= qu->_state.data.msg;
+			qu->_state.data.msg = -1;
+		}
 		return MPT_ERROR(MissingData);
 	}
 	/* get new data part */
